@@ -1618,3 +1618,6 @@ for _i in (1, 2, 3, 4, 5, 6, 7, 8, 10, 11, 12, 13, 14, 15, 16, 17, 18, 19, 20):
 for _i in (1, 2, 3, 4, 5, 6, 7, 8, 10, 11, 12, 13, 14, 15, 16, 17, 18, 19, 20):
     VARIANTS.append(dict(id="import-styles-c%02d" % _i, prop="C%02d" % _i, expect="undecided", rule=None, edits=[("@import_styles",)],
                          what="every non-numpy import written the other way (from-import <-> module import with attribute access): accepted or undecided, never an alarm"))
+for _i in (1, 2, 3, 4, 5, 6, 7, 8, 10, 11, 12, 13, 14, 15, 16, 17, 18, 19, 20):
+    VARIANTS.append(dict(id="np-constructors-c%02d" % _i, prop="C%02d" % _i, expect="undecided", rule=None, edits=[("@np_constructors",)],
+                         what="shapes as lists, arange(0, n), logical_and/or/not on comparisons as & | ~, sums of comparisons as count_nonzero: accepted or undecided, never an alarm"))
